@@ -19,15 +19,7 @@ pub uninterp spec fn moved_out(p: Primitive) -> Option<Primitive>;          // p
 pub uninterp spec fn order(h: &Heap, m: &MapH) -> Seq<Primitive>;
 pub open spec fn is_enumeration(s: Seq<Primitive>, d: Set<Primitive>) -> bool { s.no_duplicates() && (forall|k: Primitive| s.contains(k) <==> d.contains(k)) }
 #[verifier::external_body] pub broadcast proof fn order_enumerates(h: &Heap, m: &MapH) ensures is_enumeration(#[trigger] order(h, m), entries(h, m).dom()) { }
-// an iterator, by the sequence it yields (R9: the adapters a chain may use)
-pub struct VIter<T> { pub v: Vec<T> }
-impl<T> VIter<T> {
-    pub fn cloned(self) -> (r: VIter<T>) ensures r.v@ == self.v@ { self }
-    #[verifier::external_body] pub fn rev(self) -> (r: VIter<T>) ensures r.v@ == self.v@.reverse() { unimplemented!() }
-    #[verifier::external_body] pub fn skip(self, n: usize) -> (r: VIter<T>) ensures r.v@ == (if n <= self.v@.len() { self.v@.skip(n as int) } else { Seq::empty() }) { unimplemented!() }
-    #[verifier::external_body] pub fn take(self, n: usize) -> (r: VIter<T>) ensures r.v@ == (if n <= self.v@.len() { self.v@.take(n as int) } else { self.v@ }) { unimplemented!() }
-    pub fn collect_vec(self) -> (r: Vec<T>) ensures r@ == self.v@ { self.v }
-}
+""" + VITER_SPEC + r"""
 // HashMap::keys / values / iter on the map cell
 #[verifier::external_body] pub fn hm_keys(h: &Heap, m: &MapH) -> (r: VIter<Primitive>) requires mlive(h, m) ensures r.v@ == order(h, m) { unimplemented!() }
 #[verifier::external_body] pub fn hm_values(h: &Heap, m: &MapH) -> (r: VIter<Primitive>) requires mlive(h, m)
